@@ -74,7 +74,7 @@ TEXT.update({
     "C17": {
         "level": "(a) standard build: ptr_guard()/ptr_guard_mut() of slices, typed refs and element arrays report len() == bytes covered and as_ptr() == first byte for every element type, offset and element count. (b) Xen build: the real MmapRegion::from_range(GRANT|NO_ADVANCE_MAP) with models of sysconf (64-byte page), the gntdev ioctls (Kani stub of vmm_sys_util::ioctl::ioctl_with_ref) and mmap/munmap: for every access offset and length (one- and two-page windows) exactly one window is mapped, it requests the right frames and covers every byte touched, data lands at the in-page offset, and map/unmap requests and mmap/munmap pair up so that nothing stays mapped.",
         "design_ref": "DESIGN.md §4 C17, §A.3, §A.4",
-        "note": "(b) decides the window arithmetic under the assumption that ptr.add on the NULL-based pseudo-pointers is integer addition (Kani's offset model is stubbed; the UB-class finding has its own harness); quick tier: buffer write + atomic store + UB harness, thorough adds read, object/typed-ref and element-array copies; three known findings are reported by this check",
+        "note": "(b) decides the window arithmetic under the assumption that ptr.add on the NULL-based pseudo-pointers is integer addition (Kani's offset model is stubbed; the UB-class finding has its own harness); quick tier: buffer write + atomic store + UB harness, thorough adds the u64 object / typed-ref store; three known findings are reported by this check",
         "technique": _T + "; symbolic parent, offset, element count",
     },
     "C18": {
